@@ -48,6 +48,10 @@ var staticIDs = []string{
 	"ot/common/FreeSerif.ttf",
 	"ot/common/NotoSansMongolian-Regular.ttf",
 	"ot/common/Raleway-v4020-Regular.otf",
+	// the two corpus fonts with a 'rand' feature: their output depends on a random
+	// generator whose state must not survive in a cached plan
+	"hb/harfbuzz_reference/in-house/fonts/5bb74492f5e0ffa1fbb72e4c881be035120b6513.ttf",
+	"hb/harfbuzz_reference/in-house/fonts/8339c821814d9bad7c77169332327ad8b0f33c81.ttf",
 }
 
 // synthTwoStrikes is a font built in memory from ot/toys/Sbix1.ttf: its single
